@@ -2,9 +2,9 @@
 M.Http — model of the request-building and response-handling paths of crux_http (C14, C15):
 
   crux_http/src/command.rs, request_builder.rs (builders of both APIs: identical call-by-call delegation to
-  `crux_http::Request`), request.rs (delegation to `http_types::Request`), protocol.rs:190-218
+  `crux_http::Request`), request.rs (delegation to `http_types::Request`), protocol.rs:194-218
   (`into_protocol_request`), protocol.rs:221-231 (`From<HttpResponse> for ResponseAsync`),
-  response/response.rs:25-47 (`Response::new` classification), expect.rs, response/decode.rs:96-125
+  response/response.rs:25-47 (`Response::new` classification), expect.rs, response/decode.rs:83-112
   (`decode_body`, feature `encoding`), error.rs:27-35 (`From<http_types::Error>`),
   and of the parts of http-types 2.12.0 (red-badger fork) they go through:
   headers/headers.rs (`insert` replaces, `append` extends; names lower-cased, ASCII only),
@@ -45,12 +45,12 @@ def applicationJson : Bytes := [97, 112, 112, 108, 105, 99, 97, 116, 105, 111, 1
 def formUrlencoded : Bytes :=
   [97, 112, 112, 108, 105, 99, 97, 116, 105, 111, 110, 47, 120, 45, 119, 119, 119, 45, 102, 111, 114, 109, 45, 117,
    114, 108, 101, 110, 99, 111, 100, 101, 100]
-/-- `"could not decode body as "` (decode.rs:31 `Display for DecodeError`) -/
+/-- `"could not decode body as "` (decode.rs:31-35 `Display for DecodeError`) -/
 def couldNotDecode : Bytes :=
   [99, 111, 117, 108, 100, 32, 110, 111, 116, 32, 100, 101, 99, 111, 100, 101, 32, 98, 111, 100, 121, 32, 97, 115, 32]
 /-- `"UTF-8"` (`encoding_rs::UTF_8.name()`) -/
 def utf8Name : Bytes := [85, 84, 70, 45, 56]
-/-- `"utf-8"` (decode.rs:100 default label) -/
+/-- `"utf-8"` (decode.rs:87 default label) -/
 def utf8Label : Bytes := [117, 116, 102, 45, 56]
 
 example : ctName = ascii "content-type" := by decide
@@ -86,7 +86,7 @@ def insert (h : Headers) (k : Bytes) (vs : List Bytes) : Headers :=
 def append (h : Headers) (k : Bytes) (vs : List Bytes) : Headers :=
   if h.contains k then h.insert k (h.values k ++ vs) else h.insert k vs
 
-/-- `iter().flat_map(|(name, values)| values.iter().map(|v| (name, v)))` (protocol.rs:203-213, response.rs `iter`) -/
+/-- `iter().flat_map(|(name, values)| values.iter().map(|v| (name, v)))` (protocol.rs:207-215, response.rs `iter`) -/
 def flat (h : Headers) : List (Bytes × Bytes) := h.flatMap (fun e => e.2.map (fun v => (e.1, v)))
 
 end Headers
@@ -173,7 +173,7 @@ def foldCalls (r : Req) : List Call → Option Req
     | none => none
     | some r' => foldCalls r' cs
 
-/-- protocol.rs:190-218: `if self.is_empty() == Some(false)` the body is taken out with `take_body()` (which runs
+/-- protocol.rs:196-202: `if self.is_empty() == Some(false)` the body is taken out with `take_body()` (which runs
     `copy_content_type_from_body` for the empty replacement body, MIME `application/octet-stream`) and read;
     otherwise — empty, **or of unknown length (`is_empty()` is `None`)** — the request goes out with `vec![]`. -/
 def intoProtocol (r : Req) : Req :=
@@ -266,7 +266,7 @@ def validStatus : List Nat :=
 
 def isValidStatus (s : Nat) : Bool := validStatus.contains s
 
-/-- protocol.rs:226-228: `append_header(name.as_str(), value)` per shell header; `none` = panic on non-ASCII -/
+/-- protocol.rs:225-227: `append_header(name.as_str(), value)` per shell header; `none` = panic on non-ASCII -/
 def appendAll (h : Headers) : List (Bytes × Bytes) → Option Headers
   | [] => some h
   | (n, v) :: rest => if isAscii n && isAscii v then appendAll (h.append (lower n) [v]) rest else none
@@ -333,7 +333,7 @@ def decoderFor (f : Facts) (body : Bytes) : Decoder :=
   | .utf8 => if bom16 body then .opaque else .utf8
   | .other => if bom8 body then .utf8 else .opaque
 
-/-- response.rs `body_string` + decode.rs:96-125 `decode_body` (feature `encoding`, not wasm).
+/-- response.rs `body_string` + decode.rs:83-112 `decode_body` (feature `encoding`, not wasm; line 101 is the `Cow::Borrowed` shortcut).
     UTF-8: valid input decodes to `Cow::Borrowed`, and the code then returns the *original* bytes
     (`String::from_utf8_unchecked(bytes)`), i.e. including a UTF-8 byte order mark; invalid input sets `failed`. -/
 def decodeString (f : Facts) (body : Bytes) : Except HttpError Bytes :=
